@@ -42,8 +42,9 @@ pub fn classify(out: &str, err: &str) -> String {
     if err.contains("panicked at") {
         return "panic".into();
     }
-    if let Some(pos) = err.find("Error ") {
-        let e = &err[pos..];
+    // a worker reports failure on stderr and success on stdout; the wording only refines the kind of failure
+    if !err.trim().is_empty() {
+        let e = err.trim();
         let kinds: &[(&str, &str)] = &[
             ("Transfer timed out", "timeout"),
             ("Received error code", "peer"),
@@ -72,7 +73,7 @@ pub fn classify(out: &str, err: &str) -> String {
         }
         return format!("other[{}]", e.lines().next().unwrap_or("").replace(' ', "_"));
     }
-    if out.contains("Sent ") || out.contains("Received ") {
+    if !out.trim().is_empty() {
         return "ok".into();
     }
     "none".into()
